@@ -37,8 +37,9 @@ def main():
     ctx = Ctx(a.pid, a.tier, seed)
     try:
         if a.replay:
-            rc = mod.replay(ctx, a.replay)
-            sys.exit(rc)
+            # replay files are self-describing records for the reader (abstract scenario, concretisation, expected /
+            # observed projections); re-running one scenario in isolation is not implemented: show it and re-run the check
+            print(open(a.replay).read())
         mod.run(ctx)
         rc = ctx.finish()
     except MachineryError as e:
